@@ -57,8 +57,12 @@ fn real_main() -> i32 {
         i += 1;
     }
     let opts = RunOpts { tier, seed, replay, cases_override, shards_override };
+    if id == "bench" { bench(); return 0; }
     let code = match id.as_str() {
         "C12" => run_engine(&engines::c12_multisig::C12, &opts),
+        "C06" => run_engine(&engines::market::engines::C06, &opts),
+        "C07" => run_engine(&engines::market::engines::C07, &opts),
+        "C08" => run_engine(&engines::market::engines::C08, &opts),
         "C16" => run_engine(&engines::c16_paych::C16, &opts),
         _ => {
             eprintln!("unknown property {id}");
@@ -66,4 +70,18 @@ fn real_main() -> i32 {
         }
     };
     code
+}
+
+#[allow(dead_code)]
+pub fn bench() {
+    let t = std::time::Instant::now();
+    for _ in 0..20 {
+        let _f = engines::market::Fixture::new();
+    }
+    println!("fixture: {:?} each", t.elapsed() / 20);
+    let f = engines::market::Fixture::new();
+    let t = std::time::Instant::now();
+    f.w.v.set_epoch(600_000);
+    let r = f.w.call_raw(fil_actors_runtime::CRON_ACTOR_ID, fil_actors_runtime::STORAGE_MARKET_ACTOR_ID, fil_actor_market::Method::CronTick as u64, &fvm_shared::econ::TokenAmount::from_atto(0), None);
+    println!("cron over 600k epochs: {:?} ok={}", t.elapsed(), r.ok());
 }
